@@ -25,6 +25,7 @@ import (
 	"io"
 	"math/rand"
 	"os"
+	"runtime"
 	"sync"
 	"time"
 
@@ -167,6 +168,19 @@ func runConn(v *Vec, seed int64, attempt int) *outcome {
 	var established time.Time
 	sentPl := map[string][][]byte{"c2s": nil, "s2c": nil}
 	gotC2S, gotS2C := 0, 0 // delivered counts (s2c includes the ack = NewConnection returned nil)
+	// the very Packet values handed out by Responses() (never copies): "received with exactly the payload that
+	// was sent" must still be true of them after later packets have been read
+	var held []liteclient.Packet
+	changedAt, changedInfo := -1, ev.M(nil)
+	recheck := func(step int) {
+		for j, hp := range held {
+			h := sha256.Sum256(hp.Payload)
+			tr(ev.M{"k": "Recheck", "d": "s2c", "idx": j + 2, "sha": hex.EncodeToString(h[:])}) // delivered[1] is the ack
+			if changedAt < 0 && !bytes.Equal(hp.Payload, sentPl["s2c"][j+1]) {
+				changedAt, changedInfo = step, ev.M{"packet": j + 2, "len": len(hp.Payload), "after_packets": len(held) + 1}
+			}
+		}
+	}
 	closedWrite := false
 	closeWrite := func() {
 		if sc != nil && !closedWrite {
@@ -339,6 +353,8 @@ func runConn(v *Vec, seed int64, attempt int) *outcome {
 					if idx > len(sentPl[d]) || !bytes.Equal(p.Payload, sentPl[d][idx-1]) {
 						return o.fail(i, "client-delivered-other-payload", ev.M{"len": len(p.Payload)})
 					}
+					recheck(i) // the earlier packets, now that a later one has been read
+					held = append(held, p)
 				case <-time.After(stepTimeout):
 					return o.fail(i, "packet-not-delivered", ev.M{"timeout": true})
 				}
@@ -371,7 +387,11 @@ func runConn(v *Vec, seed int64, attempt int) *outcome {
 				// the specification's client-side receiver has stopped; what does the Connection say about itself?
 				o.info = ev.M{"receiver_stopped": true, "status_connected": conn.Status() == liteclient.Connected}
 			}
+			recheck(i)
 			tr(ev.M{"k": "Quiesce", "nd": []int{gotC2S, gotS2C}})
+			if changedAt >= 0 {
+				return o.fail(changedAt, "payload-changed-after-delivery", changedInfo)
+			}
 		default:
 			o.infra = fmt.Errorf("vec %d step %d: unknown step %q", v.ID, i, k)
 			return o
@@ -459,20 +479,32 @@ func runPP(v *Vec) (o *outcome) {
 		dec = cipher.NewCTR(blk, make([]byte, 16))
 	}
 	r := &chunkReader{data: stream, chunks: v.PP.Chunks}
-	var got [][]byte
+	var got [][]byte        // the very slices ParsePacket handed out (never copies)
+	var atDelivery []string // their sha256 at the moment they were handed out
 	var lastErr error
 	defer func() {
 		if p := recover(); p != nil {
 			o.fail(len(got), "ParsePacket-panic", ev.M{"panic": fmt.Sprint(p)})
 		}
 	}()
+	sha := func(b []byte) string { h := sha256.Sum256(b); return hex.EncodeToString(h[:]) }
+	changed := ev.M(nil)
+	recheck := func() { // after every later call: do the packets handed out earlier still hold their payload?
+		for j, g := range got {
+			if changed == nil && sha(g) != atDelivery[j] {
+				changed = ev.M{"packet": j + 1, "len": len(g), "after_calls": len(got) + 1}
+			}
+		}
+	}
 	for len(got) <= len(v.PP.Pkts)+2 {
 		p, err := liteclient.ParsePacket(r, dec)
+		recheck()
 		if err != nil {
 			lastErr = err
 			break
 		}
 		got = append(got, p.Payload)
+		atDelivery = append(atDelivery, sha(p.Payload))
 	}
 	sizes := make([]int, len(got))
 	for i, g := range got {
@@ -483,10 +515,13 @@ func runPP(v *Vec) (o *outcome) {
 		return o.fail(len(got), "delivered-count", obs)
 	}
 	for i, g := range got {
-		h := sha256.Sum256(g)
-		if len(g) != v.PP.Pkts[i].N || hex.EncodeToString(h[:]) != v.PP.Pkts[i].Sha {
+		if len(g) != v.PP.Pkts[i].N || atDelivery[i] != v.PP.Pkts[i].Sha {
 			return o.fail(i, "payload", obs)
 		}
+	}
+	if changed != nil {
+		obs["changed"] = changed
+		return o.fail(changed["packet"].(int)-1, "payload-changed-after-delivery", obs)
 	}
 	if lastErr == nil {
 		return o.fail(len(got), "no-error-at-end", obs)
@@ -565,6 +600,12 @@ func Replay(in string, w *ev.Writer, op Opts) error {
 				m["exp"] = ev.M{"delivered": sz, "wants": v.PP.Wants, "end": v.PP.End}
 			}
 			m["key"] = "C11:" + mode + ":" + v.Cls + ":" + o.what
+			if o.what == "payload-changed-after-delivery" {
+				m["key"] = "C11:payload-changed-after-delivery" // one defect class whatever the script
+			}
+			if o.what == "client-delivered-other-payload" {
+				m["key"] = "C11:conn:client-delivered-other-payload" // likewise independent of the script's fault class
+			}
 		}
 		w.Emit(m)
 		if tw != nil && mode == "conn" && len(o.trace) > 0 {
@@ -573,6 +614,13 @@ func Replay(in string, w *ev.Writer, op Opts) error {
 			}
 		}
 	}
+	// ParsePacket directly: one goroutine on one P and nothing else running, so that whatever the code keeps
+	// between calls (pools, caches) behaves the same way in every run
+	prev := runtime.GOMAXPROCS(1)
+	for _, v := range vecs {
+		emit(v, "pp", runPP(v))
+	}
+	runtime.GOMAXPROCS(prev)
 	jobs := make(chan *Vec)
 	var wg sync.WaitGroup
 	for i := 0; i < op.Workers; i++ {
@@ -580,7 +628,6 @@ func Replay(in string, w *ev.Writer, op Opts) error {
 		go func() {
 			defer wg.Done()
 			for v := range jobs {
-				emit(v, "pp", runPP(v))
 				var o *outcome
 				for attempt := 0; attempt < 4; attempt++ {
 					o = runConn(v, op.Seed, attempt)
@@ -702,6 +749,13 @@ func echoSession(rng *rand.Rand, seed int64, s, attempt int, special []int) ([]e
 	add(ev.M{"k": "Dlv", "d": "s2c", "hex": ""})
 	conn := r.c
 	nc, ns := 0, 1
+	var held []liteclient.Packet // the Packet values handed out by Responses(), kept and re-read (never copied)
+	recheck := func() {
+		for j, hp := range held {
+			h := sha256.Sum256(hp.Payload)
+			add(ev.M{"k": "Recheck", "d": "s2c", "idx": j + 2, "sha": hex.EncodeToString(h[:])})
+		}
+	}
 	packets := 1 + rng.Intn(6)
 	for k := 0; k < packets; k++ {
 		var n int
@@ -756,6 +810,8 @@ func echoSession(rng *rand.Rand, seed int64, s, attempt int, special []int) ([]e
 		case p := <-conn.Responses():
 			ns++
 			add(ev.M{"k": "Dlv", "d": "s2c", "hex": hex.EncodeToString(p.Payload)})
+			recheck()
+			held = append(held, p)
 		case <-time.After(stepTimeout):
 			add(ev.M{"k": "Quiesce", "nd": []int{nc, ns}, "timeout": true})
 			return tr, nil
@@ -771,6 +827,7 @@ func echoSession(rng *rand.Rand, seed int64, s, attempt int, special []int) ([]e
 		add(ev.M{"k": "Dlv", "d": "s2c", "hex": hex.EncodeToString(p.Payload)})
 	case <-time.After(40 * time.Millisecond):
 	}
+	recheck()
 	add(ev.M{"k": "Quiesce", "nd": []int{nc, ns}})
 	return tr, nil
 }
